@@ -635,6 +635,30 @@ def _rename_nested_params(fn, ref_nested):
                         x.id = mp[x.id]
 
 
+def _rename_params(fn, ref_params, stats, rel, qual):
+    """parameters are identified by position: a function whose parameters were renamed (same arity) gets the reference spelling
+    back, in the analyser's tree only (callers that pass them by keyword were made positional by N7 where the name is unique)"""
+    a = fn.args
+    if a.vararg or a.kwarg or a.kwonlyargs or a.posonlyargs:
+        return
+    cur = [x.arg for x in a.args]
+    if cur == ref_params or len(cur) != len(ref_params):
+        return
+    mp = dict((c, r) for c, r in zip(cur, ref_params) if c != r)
+    others = set(x.id for x in ast.walk(fn) if isinstance(x, ast.Name)) - set(cur)
+    if set(mp.values()) & (others | (set(cur) - set(mp))):
+        return
+    # nested functions/lambdas that rebind one of the names keep their own
+    for x in a.args:
+        if x.arg in mp:
+            x.arg = mp[x.arg]
+    for n in ast.walk(fn):
+        if isinstance(n, ast.Name) and n.id in mp:
+            n.id = mp[n.id]
+    if stats is not None:
+        stats.append((rel, qual, dict(mp)))
+
+
 def new_locals(rel, qual, fn):
     """locals of a function that the reference function does not have (after renaming): candidates for N10"""
     ref = reference().get(rel, {}).get(qual)
@@ -652,9 +676,12 @@ def canonicalise(rel, tree, stats=None):
         return 0
     touched = 0
     refn = ref.get('__nested__', {})
+    refp = ref.get('__params__', {})
     for qual, fn in outer_functions(tree):
         if qual in refn:
             _rename_nested_params(fn, refn[qual])
+        if qual in refp:
+            _rename_params(fn, refp[qual], stats, rel, qual)
         want = ref.get(qual)
         if want is None:
             continue
@@ -720,6 +747,7 @@ def build_reference(sources):
                 fns[qual] = [[n, s] for n, s in sigs]
         fns['__functions__'] = allq
         fns['__nested__'] = nested
+        fns['__params__'] = dict((qual, [x.arg for x in fn.args.args]) for qual, fn in outer_functions(tree))
         out[rel] = fns
     return out
 
